@@ -391,14 +391,28 @@ def mt_terminator(ctx):
     sp = [g for g in ms if any(c.is_('thread::spawn') for _, _, c in g.calls())]
     for g in sp:
         okp = False
+        # locals captured by the worker closure: the clearing store must be into the value that moves into the thread
+        captured = set()
+        for b in g.blocks:
+            for s in b['stmts']:
+                if s['k'] == 'assign' and s['rv']['r'] == 'agg' and s['rv'].get('kind') == 'closure':
+                    captured |= {op_local(o) for o in s['rv']['ops'] if op_local(o) is not None}
+        elsewhere = None
         for bi, b in enumerate(g.blocks):
             for si, s in enumerate(b['stmts']):
                 if s['k'] == 'assign' and s['lhs']['p'] and isinstance(s['lhs']['p'][-1], dict) and s['lhs']['p'][-1].get('n') == 'preset_dict':
                     val = Prov(g).rvalue(s['rv'], 0)
                     if val[0] == 'agg' and str(val[1]).endswith('::None'):
-                        okp = True
-                        ctx.ok('%s:worker-options-no-preset-dict' % g.key, g.loc(bi, si), 'cloned options.preset_dict = None')
-        if not okp:
+                        if s['lhs']['l'] in captured:
+                            okp = True
+                            ctx.ok('%s:worker-options-no-preset-dict' % g.key, g.loc(bi, si), 'preset_dict = None is stored into the options value the worker closure captures')
+                        else:
+                            elsewhere = (bi, si)
+        if not okp and elsewhere:
+            ctx.violation('%s:worker-options-no-preset-dict' % g.key, g.loc(*elsewhere), 'preset_dict is cleared, but not in the options value that moves into the '
+                          'worker thread: a worker spawned from a clone taken earlier keeps the preset dictionary, what a unit is encoded against '
+                          'depends on the worker that takes it (and those units do not decode)')
+        elif not okp:
             ctx.violation('%s:worker-options-no-preset-dict' % g.key, g.loc(0), 'worker options keep the preset dictionary: every '
                           'unit but the first would be encoded against a dictionary the decoder does not have at that point')
 
